@@ -63,7 +63,7 @@ Section MoneroProofs.
     destruct (g_is_zero _) eqn:Z; [discriminate|]. simpl. intros H; inversion H; auto.
   Qed.
 
-  Lemma priv_public_err k e : length k = 32%nat -> priv_public k = Err e -> e = nacl_runtime_error.
+  Lemma priv_public_err k e : length k = 32%nat -> priv_public k = Err e -> e = scalarmult_error.
   Proof.
     intros L. unfold Monero.priv_public, mul_base_bytes, mul_base_n. rewrite L, ed_coord_len_32, Nat.eqb_refl.
     destruct (_ || _); intros H; inversion H; auto.
@@ -106,7 +106,7 @@ Section MoneroProofs.
 
   (* the only other outcomes: a refused key, or libsodium's error on a zero scalar / identity point *)
   Theorem from_priv_spend_err b net e : from_priv_spend b net = Err e ->
-    e = LibError MoneroKeyError \/ e = nacl_runtime_error.
+    e = LibError MoneroKeyError \/ e = scalarmult_error.
   Proof.
     unfold Monero.from_priv_spend.
     destruct (priv_from_bytes b) as [sk|] eqn:E1; cbn [bind Ok Err];
@@ -136,7 +136,7 @@ Section MoneroProofs.
 
   (* seeds of every length are accepted: never a key error *)
   Theorem from_seed_total seed net :
-    (exists w, from_seed seed net = Ok w) \/ from_seed seed net = Err nacl_runtime_error.
+    (exists w, from_seed seed net = Ok w) \/ from_seed seed net = Err scalarmult_error.
   Proof.
     destruct (from_seed seed net) as [w|e] eqn:E; [left; exists w; reflexivity|right].
     unfold Monero.from_seed in E. destruct (from_priv_spend_err _ _ _ E) as [-> | ->]; [|reflexivity].
